@@ -27,10 +27,28 @@ CLAIMED = {
              "(all 4096 types, every CRC value, 0xD3 inside payload/CRC): exactly one message per segment, in order, with exactly its bytes and type.",
         note="shapes outside the enumerated family are outside the claim; CRC model as C01.",
         ref="DESIGN.md section 6, C03"),
+    "C04": dict(
+        text="A reference encoder written from the standard's field tables builds MSM4/MSM7 frames from symbolic field values (every field over its full width, multiple-message flag symbolic); the real decoder must accept the frame and reproduce every header field, mask, satellite cell and signal cell, attached to the right satellite and signal id, for every cell mask of eight small shapes at three placements, 0..10 zero padding bytes (thorough 0..24), all 14 message types and wide shapes up to the 64-cell limit.",
+        note="mask SHAPES are enumerated (concrete) because the mask-expansion loops fork per bit; shapes outside the family are outside the claim; CRC model as C01.",
+        ref="DESIGN.md section 6, C04"),
+    "C05": dict(
+        text="1005/1006 frames built by a reference encoder from symbolic field values (exhaustive in the values) decode to exactly those values with 0..4 trailing bytes; every truncated length and every wrong type is rejected; the display at both log levels shows the three (four) coordinates as the decoded integer count of 0.1 mm divided by 10000 with four decimals.",
+        note="for a %.4f rendering the solver shows the operand is float64(field)*0.0001 with |field| < 2^37 and the digit rendering by strconv is argued, not solved; an integer rendering (%d.%04d) is decided by the solver including the sign of values between -1 m and 0.",
+        ref="DESIGN.md section 6, C05"),
+    "C06": dict(
+        text="Every timestamp is packed into a CRC-valid MSM frame and sent through Handler.GetMessage; the true instant is defined from (week number, timestamp) with the property's reference arithmetic. For a start time symbolic to the nanosecond over nine days and histories of 2 (thorough 3) messages of any constellation and MSM4/MSM7 under the property's precondition, SentAt and StartOfWeek name exactly the true instant and week start; an illegal timestamp is reported as an error and later valid messages are still correct.",
+        note="abstract instant model of time.Time (ite chains over day boundaries inside a solver-checked window); queries decided over the integers with explicit mod 2^64; histories longer than the bound are outside the claim.",
+        ref="DESIGN.md section 6, C06",
+        technique="bounded symbolic execution of the real Go code (go/ssa interpreter, encoding regenerated from /repo on every run) with an SMT solver (z3 5.1.0, linear integer arithmetic back end) deciding every branch and assertion; counterexamples replayed natively"),
+    "C17": dict(
+        text="As C06 with the first observation of each constellation anywhere in the start time's constellation week - before, at or after the start time: the reported times equal the true observation times for histories of 2 (thorough 3) messages.",
+        note="as C06.",
+        ref="DESIGN.md section 6, C17",
+        technique="bounded symbolic execution of the real Go code (go/ssa interpreter, encoding regenerated from /repo on every run) with an SMT solver (z3 5.1.0, linear integer arithmetic back end) deciding every branch and assertion; counterexamples replayed natively"),
     "C07": dict(
         text="Every Go safety condition (index, slice bounds, nil dereference, division, type assertion, channel misuse), every deadlock and every unwinding-limit hit is an obligation on the "
-             "framing paths over arbitrary buffers/streams (GetMessage <= 14 B, stream step <= 10 B, stream <= 7 B; thorough 40/16/10) followed by String() at both log levels; "
-             "decoder paths on CRC-valid frames of each decodable type are added by the C07 B harnesses.",
+             "framing paths over arbitrary buffers/streams (GetMessage <= 14 B, stream step <= 10 B, stream <= 7 B; thorough 40/16/10) followed by String() at both log levels, and on the "
+             "decoder and display paths over CRC-valid 1005/1006/MSM4/MSM7 frames with arbitrary payload bits at every payload length (mask shapes concrete incl. shapes announcing more than fits; cell mask and all other bits symbolic), and over every 30-bit timestamp of every MSM type.",
         note="fmt/hex/time internals are stubs that never panic; inputs beyond the bounds are outside the claim.",
         ref="DESIGN.md section 6, C07"),
     "C08": dict(
